@@ -121,6 +121,7 @@ Inductive cond :=
 Record config := {
   flags : N;                       (* server.http-parseopts *)
   lc : bool;                       (* server.force-lowercase-filenames *)
+  allow : list (list N);           (* global url.access-allow (empty: not set) *)
   deny : list (list N);            (* global url.access-deny *)
   excl : list (list N);            (* static-file.exclude-extensions *)
   auth_prefix : list (list N);     (* auth.require keys *)
@@ -183,7 +184,7 @@ Definition ends_slash (p : list N) : bool := match rev p with c :: _ => c =? 47 
 
 (* everything after the target is parsed and the client address is known *)
 Definition decide_path (cf : config) (fs : fsys) (path host : list N) (a : addr) : outcome :=
-  if negb (access_check [] (deny_in_force cf path host a) path (lc cf)) then O403
+  if negb (access_check (allow cf) (deny_in_force cf path host a) path (lc cf)) then O403
   else if match_key_prefix (lc cf) (auth_prefix cf) path then O401
   else
     let rel := if lc cf then lower path else path in
@@ -197,7 +198,7 @@ Definition decide_path (cf : config) (fs : fsys) (path host : list N) (a : addr)
       | None => O404
       | Some (file, pi) =>
           let upath := firstn (length path - length pi) path in
-          if negb (access_check [] (deny_in_force cf upath host a) upath (lc cf)) then O403
+          if negb (access_check (allow cf) (deny_in_force cf upath host a) upath (lc cf)) then O403
           else if match_value_suffix false (excl cf) file then O403
           else O200 file pi
       end.
